@@ -383,34 +383,44 @@ def laws(rng, tier, ctx):
             yield Finding('violation', case, 'tree_update returned a %s for a %s' % (type(res).__name__, type(t).__name__))
         if not idem:
             yield Finding('violation', dict(tag='law-update-idem', lines=['(tree update %s %s (L) %d)' % (T, T, cls)]), 'tree_update(t, t) != t or tree_update(t, {}) != t')
-    # tree_to_table / table_to_tree inverse on rows with unique paths, patterns with 1..4 wildcards
-    m = 200 if tier == 'quick' else 5000
+    # table_to_tree / tree_to_table with the same pattern are inverse on rows with unique paths: patterns with 1..4 wildcards and
+    # literal segments in any position (at least two segments: a one-segment pattern has no place for a leaf), both directions
+    from pyg_base._table_to_tree import table_to_tree
+    m = 300 if tier == 'quick' else 8000
     for _ in range(m):
         w = rng.choice([1, 2, 3, 4])
-        names = ['k%d' % i for i in range(w)]
+        segs = ['%%k%d' % i for i in range(w)]
+        for _ in range(rng.choice([0, 0, 1, 2]) if w > 1 else rng.choice([1, 1, 2])):
+            segs.insert(rng.randrange(len(segs) + 1), rng.choice(['lit', 'x', 'p', 'a.b']))
+        pattern = '/'.join(segs)
+        names = [sg[1:] for sg in segs if sg.startswith('%')]
+        last_wild = segs[-1].startswith('%')
         rows, seen = [], set()
-        for _ in range(rng.choice([1, 2, 3, 5])):
-            row = tuple(rng.choice(['p', 'q', 'r']) for _ in range(w - 1)) + (rng.choice(['p', 'q', 'r', 1, 2]),)
-            if row[:-1] not in seen:
-                seen.add(row[:-1])
-                rows.append(row)
-        pattern = '/'.join('%' + n for n in names)
-        tree = items_to_tree(rows) if w > 1 else None
-        if tree is None:
-            continue
-        count += 1
-        case = dict(tag='law-table-tree-%d' % w, lines=['(tree fromitems %s)' % enc(rows)])
+        for _ in range(rng.choice([1, 2, 3, 5, 8])):
+            row = {n: rng.choice(['p', 'q', 'r', 'lit']) for n in names}
+            if last_wild:
+                row[names[-1]] = rng.choice(['p', 'q', 1, 2, None, [1, 2], 'lit'])
+            path = tuple(row[sg[1:]] if sg.startswith('%') else sg for sg in segs[:-1])
+            if path not in seen:
+                seen.add(path)
+                items = list(row.items())
+                rng.shuffle(items)                     # the order of the columns in a row is immaterial
+                rows.append(dict(items))
+        count += 2
+        case = dict(tag='law-table-tree-%d' % w, lines=['(tree totree %s %s)' % (enc(pattern), enc(rows))])
         try:
+            tree = table_to_tree(None, pattern, _copy.deepcopy(rows))
             table = tree_to_table(tree, pattern)
-            got = sorted(tuple(r[n] for n in names) for r in table) if all(isinstance(r[names[-1]], str) for r in table) else \
-                sorted((tuple(r[n] for n in names) for r in table), key=repr)
-            want = sorted(rows) if all(isinstance(r[-1], str) for r in rows) else sorted(rows, key=repr)
-            back = pyg_base.dictable(table).table_to_tree if False else None
+            back = table_to_tree(None, pattern, table)
         except Exception as e:
-            yield Finding('violation', case, 'tree_to_table raised %s' % type(e).__name__)
+            yield Finding('violation', case, 'table_to_tree / tree_to_table raised %s on rows with unique paths' % type(e).__name__)
             continue
-        if got != want:
-            yield Finding('violation', case, 'tree_to_table(items_to_tree(rows), %s) does not give the rows back' % pattern)
+        key = lambda r: repr(sorted(r.items()))
+        if sorted(map(key, table)) != sorted(map(key, rows)):
+            yield Finding('violation', case, 'tree_to_table(table_to_tree(rows, P), P) = %s does not give the rows %s back (pattern %s)' % (enc(table), enc(rows), pattern))
+        if _plain(back) != _plain(tree) or list(paths(_plain(back))) != list(paths(_plain(tree))):
+            yield Finding('violation', dict(tag='law-tree-table-%d' % w, lines=['(tree totable %s %s)' % (enc(_plain(tree)), enc(pattern))]),
+                          'table_to_tree(tree_to_table(t, P), P) != t for a tree all of whose items match P (pattern %s)' % pattern)
     yield count
 
 
